@@ -176,7 +176,7 @@ pub fn judge(w: Which, stage: &str, i: u64, files: &[(String, String)], st: &mut
     }
     st.case(key, nontrivial);
     st.inc(&format!("{stage}.{label}"));
-    if st.want_sample() && nontrivial && files.len() > 1 && files.iter().all(|f| f.1.len() < 600) {
+    if st.want_sample() && nontrivial && files.iter().all(|f| f.1.len() < 600) {
         st.sample(json!({"stage": stage, "files": files, "diagnostics": evals.iter().map(|e| json!({"id": e.id, "diags": e.valid_diags})).collect::<Vec<_>>()}));
     }
     if !problems.is_empty() {
